@@ -144,7 +144,9 @@ func (p SpendPolicy) Verify(height uint64, medianTimestamp time.Time, sigHash Ha
 			}
 			return fmt.Errorf("height (%v) not above %v", height, uint64(p))
 		case PolicyTypeAfter:
-			if medianTimestamp.After(time.Time(p)) {
+			// the policy commits to its time in whole seconds (encoding and
+			// address); ignore any sub-second part of an in-memory value
+			if medianTimestamp.After(time.Time(p).Truncate(time.Second)) {
 				return nil
 			}
 			return fmt.Errorf("median timestamp (%v) not after %v", medianTimestamp, time.Time(p))
